@@ -17,7 +17,20 @@ PROP = {'streams': [('c09', 2000, 200000)],
          '(namespaces, common types, standard and enum entities, actions with parents / appliesTo / context); `sty parse-frag` lines: the real '
          'from_cedarschema_str + to_json_schema.rs on the printed text, on the generated Cedar text (bare and multiple names, unqualified '
          "parents, any appliesTo order) and on single-token declaration-level mutations of both, against the model's fragment parser (entries "
-         'and namespaces sorted on both sides; texts refused as duplicates or refused while annotated are skipped and counted); non-trivial = every '
+         'and namespaces sorted on both sides; texts refused as duplicates or refused while annotated are skipped and counted); `sty collect-frag` '
+         'lines (~16.5k per quick run): the same texts and mutations PLUS a family with a repeated declaration in one namespace / a repeated namespace '
+         'block / both (and 30% single-token mutations of those) against parseFragmentCollected, the accepted fragment compared in BTreeMap KEY ORDER '
+         '(nothing sorted), rejections by the class of the first error (ToJsonSchemaError::DuplicateDeclarations / DuplicateNamespaces / other); skipped '
+         'and counted: a duplicate together with a declaration that fails to convert on its own or a ReservedName (Rust checks duplicates before '
+         'converting, the model after), rejected annotated texts; `sty to-cedar-checked` lines (~11k): every generated fragment plus a JSON family with '
+         'an entity type and a common type of one name in a named / in the empty namespace (also referenced through Set and records) and entity '
+         'shapes that are not record literals (Long, String, Set, common-type and extension references) against toCedarChecked: tokens or '
+         'ToCedarSchemaSyntaxError::NameCollisions / UnconvertibleEntityTypeShape; `sty print-frag-a` (~3.2k) / `sty parse-frag-a` (~5k) lines: '
+         'to_cedarschema on fragments with annotations on namespaces and declarations (attribute annotations stripped from the fragment first, '
+         'counted) against printFragmentA, and the real grammar parse_schema (with deduplicate_annotations) on the printed texts, on repeated / '
+         'value-less / dangling annotation mutations and on declaration-level mutations against parseItemsA (items in source order with their '
+         'annotation maps and declaration kinds; texts with a reserved name, refused by the model while parsing and by Rust while converting, '
+         'skipped and counted); non-trivial = every '
          'model line, policy and datum, distinct by text',
  'theorems': ['type_roundtrip',
               'type_roundtrip_json',
@@ -56,10 +69,13 @@ PROP = {'streams': [('c09', 2000, 200000)],
               'annotated_fragment_roundtrip'],
  'assumptions': ['theorems cover type expressions, name resolution and the syntax of ALL declaration kinds and whole fragments (standard and enum '
                  'entities, actions with parents / appliesTo / context, common types, namespace blocks: fragment_roundtrip, up to the spelled-out '
-                 'normal form normFragment), the BTreeMap collection of parsed declarations with its duplicate errors (collectFragment; model only, '
-                 'no driver op: the parse-frag correspondence still sorts on both sides and skips duplicates), the refusal cases of fmt.rs '
-                 '(toCedarChecked; model only) and annotation maps on declarations (annotations_roundtrip, annotated_namespace_roundtrip) and on namespace blocks '
-                 '(annotated_fragment_roundtrip, at the level of the parsed items; model only, no driver op); annotations on record '
+                 'normal form normFragment), the BTreeMap collection of parsed declarations with its duplicate errors (collectFragment; tied to Rust by '
+                 '`sty collect-frag` in key order, except texts with a duplicate AND a conversion error, where the model answers syntax and Rust the '
+                 'duplicate: skipped), the refusal cases of fmt.rs (toCedarChecked; tied by `sty to-cedar-checked`, error CLASS only, the colliding '
+                 'names are not compared) and annotation maps on declarations (annotations_roundtrip, annotated_namespace_roundtrip) and on namespace blocks '
+                 '(annotated_fragment_roundtrip, at the level of the parsed items; tied by `sty print-frag-a` / `sty parse-frag-a`, annotation values '
+                 'being whatever the harness lexer can unescape with the real to_unescaped_string: empty, ASCII with spaces, quotes, backslashes, '
+                 'newlines, non-ASCII); annotations on record '
                  'attributes, lexing/escapes, action attributes and ValidatorSchema construction are covered by the four-way differential run only',
                  "the model's tokens are produced from Rust's printed text by the harness's lexer (string literals unescaped by the real "
                  'to_unescaped_string)',
@@ -84,6 +100,8 @@ TEXT = ('Lean theorems over a thin model of schema TYPE EXPRESSIONS and NAME RES
  '(toCedar_refuses_iff), and the two recorded rebinding defects are not refused (finding_clash_not_refused, finding_shadow_not_refused). Annotation '
  'maps print and re-read as themselves with an absent value turned into "" (annotations_roundtrip), also on every declaration of a namespace body '
  '(annotated_namespace_roundtrip) and of a whole fragment with annotated namespace blocks (annotated_fragment_roundtrip). '
+ 'The collection, the refusals and the annotated printer / parser are tied to the Rust code by checked correspondence as well (collect-frag in key '
+ 'order with the duplicate classes, to-cedar-checked with the two refusal classes, print-frag-a / parse-frag-a). '
  'Annotations on record attributes, lexing and everything else are NOT modelled: they are covered by the four-way differential run '
  'on the implementation (JSON -> schema vs JSON -> to_cedarschema -> schema, Cedar -> schema vs Cedar -> to_json_value -> schema, one further hop '
  'each, equality of ValidatorSchema plus identical policy/request/entity validation verdicts).',
